@@ -22,14 +22,14 @@ RTOL = 1e-9
 # ------------------------------------------------------------------------------ case
 
 def make_case(r, g, n_geos, cls=None, elig_mode=None, focus=None, allow=None, id_style=None,
-              n_dates=None, elig_extra=None):
+              n_dates=None, elig_extra=None, date_style=None):
   """Materialises one search case from the RNGs. Returns a dict of concrete inputs."""
   cls = cls or gen.weighted(r, [('continuous', 6), ('duplicates', 1), ('integer', 1), ('gappy', 1.5)])
   id_style = id_style or gen.pick(r, ['str', 'int', 'intmix', 'numstr'])
   if n_dates is None:
     n_dates = gen.weighted(r, [(r.randrange(8, 20), 2), (r.randrange(20, 60), 4), (r.randrange(60, 121), 1.5)])
   panel = gen.gen_panel(r, g, n_geos, n_dates, cls=cls, id_style=id_style,
-                        date_style=gen.pick(r, ['ts', 'ts', 'iso']))
+                        date_style=date_style or gen.pick(r, ['ts', 'ts', 'iso']))
   elig_mode = elig_mode or gen.weighted(r, [('none', 2), ('mixed', 5), ('mostly_ctx', 3), ('ctx', 0.5)])
   rows = gen.gen_elig_rows(r, panel['ids'], elig_mode)
   extra = {}
@@ -56,6 +56,7 @@ def make_case(r, g, n_geos, cls=None, elig_mode=None, focus=None, allow=None, id
   case = {'panel': panel, 'elig_rows': rows, 'params': kw, 'frame': frame, 'extra': extra,
           'elig_index_keyed': r.random() < 0.3, 'elig_seed': r.randrange(1 << 30),
           'preset_geo_index': r.random() < 0.2}
+  case['prior_long_window'] = (r.random() < 0.15 and kw.get('n_pretest_max', 90) < n_dates)
   return case
 
 
@@ -65,7 +66,8 @@ def describe(case, with_frame=True):
   d = {'geos': [str(i) for i in p['ids']], 'id_style': p['id_style'], 'panel_class': p['cls'],
        'n_dates': len(p['dates']), 'first_date': str(p['dates'][0]), 'features': p['features'],
        'eligibility': case['elig_rows'], 'params': util.jsonable(case['params']), 'extra': case['extra'],
-       'preset_geo_index': bool(case.get('preset_geo_index'))}
+       'preset_geo_index': bool(case.get('preset_geo_index')),
+       'prior_long_window': bool(case.get('prior_long_window'))}
   if with_frame and len(p['ids']) * len(p['dates']) <= 400:
     d['values'] = [[round(float(v), 6) for v in row] for row in p['values']]
   return d
@@ -85,6 +87,18 @@ def build(case, mods=None, params_override=None):
     edf = gen.elig_frame(case['elig_rows'], er, index_keyed=case['elig_index_keyed'])
     elig = emod.GeoEligibility(edf)
   data = dmod.TBRMMData(case['frame'].copy(), 'response', elig)
+  if case.get('prior_long_window'):
+    # the data object was used before by another search object with a LONGER window (and searched), then handed
+    # to the object under test, whose constructor cuts the table to its own, shorter window
+    kw_long = dict(params_override or case['params'])
+    kw_long['n_pretest_max'] = 10 ** 6
+    for k_ in ('budget_range', 'treatment_share_range', 'n_geos_max'):
+      kw_long.pop(k_, None)
+    try:
+      first = smod.TBRMatchedMarkets(data, pmod.TBRMMDesignParameters(**kw_long))
+      first.greedy_search()
+    except Exception:  # pylint: disable=broad-except
+      pass
   if case.get('preset_geo_index'):
     # a caller may install a geo index on the data object before handing it to the search object
     data.geo_index = [gid for gid in data.df.index if gid in data.assignable]
@@ -101,8 +115,11 @@ class Truth:
   def __init__(self, case):
     p = case['panel']
     kw = case['params']
-    self.ids = [str(i) for i in p['ids']]
-    vals = np.where(p['present'], p['values'], 0.0)
+    nan_geos = set(case.get('nan_geos') or [])     # geos whose every response is NaN: absent from the canonical table
+    all_ids = [str(i) for i in p['ids']]
+    keep = [k for k, gid in enumerate(all_ids) if gid not in nan_geos]
+    self.ids = [all_ids[k] for k in keep]
+    vals = np.where(p['present'], p['values'], 0.0)[keep]
     self.full = {gid: vals[i] for i, gid in enumerate(self.ids)}
     means = {gid: math.fsum(self.full[gid]) / len(p['dates']) for gid in self.ids}
     tot = math.fsum(means.values())
@@ -247,7 +264,7 @@ def alt_params(case, r):
   return kw
 
 
-def run_search(case, which, mods=None, interleave=None):
+def run_search(case, which, mods=None, interleave=None, prior_calls=None, prior_long_window=False):
   """Runs one search on fresh objects at the client boundary.
 
   interleave: optional random.Random. When given, the data object is *shared* with a second matched-markets
@@ -271,6 +288,10 @@ def run_search(case, which, mods=None, interleave=None):
   adm = util.call(lambda: set(mm.geos_within_constraints))
   rec['admitted'] = adm.value if adm.ok else None
   rec['par_before'] = snapshot_params(par)
+  if prior_calls:
+    # earlier searches on the SAME object (their results are discarded): the judged call must not depend on them
+    for pc in prior_calls:
+      util.call(getattr(mm, pc + '_search'))
   rec['interleaved'] = False
   if interleave is not None:
     smod = bootstrap.mm('tbrmatchedmarkets') if mods is None else mods.tbrmatchedmarkets
@@ -326,7 +347,8 @@ def legality_violations(truth, nd, admitted=None):
       out.append('control geo %r has no eligibility row' % gid)
     elif gen.ROWS[cls][0] == 0:
       out.append('control geo %r is not control-eligible (%s)' % (gid, cls))
-  for gid, cls in sorted(truth.row.items()):
+  for gid, cls in sorted(truth.elig_all.items()):
+    # every row of the caller's table counts, also rows of geos that have no usable data
     if gen.ROWS[cls][2] == 0 and gid not in T and gid not in C:
       out.append('geo %r (%s) may not be excluded but is in neither group' % (gid, cls))
     if cls == 'x_fixed' and (gid in T or gid in C):
